@@ -17,11 +17,16 @@
          `SimSortedRd.runSt` (the estimator object threaded from call to call).  answer: that run in the
          `jResult` format (+ "rd_bounds").  The harness compares it with the implementation's uninterrupted
          run AND with its interrupted / serialised / resumed runs under the same algorithm object.
+  "json": {"docs": [text, …], "strs": [string, …], "ints": [int, …]} — the TEXT layer (`AcnModel/JsonText.lean`):
+         every doc (a whole `to_json()` document of the implementation) is parsed by the modelled `json.loads` and
+         rendered again by the modelled `json.dumps` (null when it does not parse); every string / int is
+         rendered, and parsed back.  The harness compares with CPython's `json.dumps` / `json.loads` byte for byte.
 -/
 import AcnModel.WireSim
 import AcnModel.Registry
 import AcnModel.RegistrySim
 import AcnModel.WireSortedRd
+import AcnModel.RegistryJson
 open Lean Acn Acn.Wire Acn.EventCore Acn.Sim
 
 namespace Acn.RegWire
@@ -151,6 +156,23 @@ def handleSim (j : Json) : Except String Json := do
       pure ((((jResult cfg r2).setObjVal! "first" (jResult cfg r)).setObjVal! "crash_store"
         (jList Acn.RegWire.jObj st)).setObjVal! "codec_inverse" (jB inv))
 
+def handleJson (j : Json) : Except String Json := do
+  let docs ← (← getArr j "docs").mapM fun v => v.getStr?
+  let strs ← (← getArr j "strs").mapM fun v => v.getStr?
+  let ints ← (← getArr j "ints").mapM fun v => v.getInt?
+  pure (Json.mkObj [
+    ("docs", jList (fun t => match Acn.JsonText.parseS t with
+        | some v => jS (Acn.JsonText.renderS v)
+        | none => Json.null) docs),
+    ("strs", jList (fun x => jS (Acn.JsonText.renderS (.str x))) strs),
+    ("strs_back", jList (fun x => match Acn.JsonText.parseS (Acn.JsonText.renderS (.str x)) with
+        | some (.str y) => jB (y == x)
+        | _ => jB false) strs),
+    ("ints", jList (fun n => jS (Acn.JsonText.renderS (.int n))) ints),
+    ("ints_back", jList (fun n => match Acn.JsonText.parseS (Acn.JsonText.renderS (.int n)) with
+        | some (.int m) => jB (m == n)
+        | _ => jB false) ints)])
+
 def handle (j : Json) : Except String Json := do
   let s ← match j.getObjVal? "sim" with
     | .ok v => if v.isNull then pure Json.null else handleSim v
@@ -166,6 +188,9 @@ def handle (j : Json) : Except String Json := do
         let a ← Acn.WireSortedRd.handle v
         pure ((a.getObjVal? "simrun").toOption.getD Json.null)
     | .error _ => pure Json.null
-  pure (Json.mkObj [("sim", s), ("reg", r), ("decode", d), ("sorted", so)])
+  let js ← match j.getObjVal? "json" with
+    | .ok v => if v.isNull then pure Json.null else handleJson v
+    | .error _ => pure Json.null
+  pure (Json.mkObj [("sim", s), ("reg", r), ("decode", d), ("sorted", so), ("json", js)])
 
 def main : IO Unit := runDriver handle
